@@ -249,4 +249,48 @@ Proof.
   intros t' th' Ht' Hk Hl. pose proof (I_lock_reachable cs st s Hr t' th' Ht' Hl) as Hown.
   rewrite Hk, HC, Hh in Hown. congruence.
 Qed.
+
+(** ** C09 with the file lock underneath
+
+    Implementation runs whose thread steps satisfy a restriction [ok] on schedules / fault
+    plans (in the vocabulary of [Issuance.Base.runs]) are Issuance runs with that restriction. *)
+Definition thr_ok (ok : state -> label -> Prop) (x : state * fam) (il : ilabel) : Prop :=
+  match il with IThr l _ => ok (fst x) l | IEnv _ => True end.
+
+Inductive iruns_ok (ok : state -> label -> Prop) : state * fam -> list ilabel -> state * fam -> Prop :=
+| iruns_ok_nil x : iruns_ok ok x [] x
+| iruns_ok_cons x l y ls z : thr_ok ok x l -> istep c x l y -> iruns_ok ok y ls z -> iruns_ok ok x (l :: ls) z.
+
+Lemma iruns_ok_iruns ok x ls y : iruns_ok ok x ls y -> iruns c x ls y.
+Proof. intros R. induction R; econstructor; eauto. Qed.
+
+Theorem impl_refines_issuance_ok ok cs st ls s F : iruns_ok ok (iinit cs st) ls (s, F) ->
+  exists es, runs ok (init_state cs st) es s.
+Proof.
+  intros R.
+  assert (G : forall x ls0 y, iruns_ok ok x ls0 y -> forall es0, runs ok (init_state cs st) es0 (fst x) ->
+              exists es, runs ok (init_state cs st) es (fst y)).
+  { clear R. intros x ls0 y R. induction R as [x|x l y ls1 z Hok Hs R IH]; [eauto|]. intros es0 Hr.
+    destruct Hs as [s0 F0 fl F' _ _ _|s0 F0 l p s1 e Hs _|s0 F0 l p s1 e k fl x0 Hs _ _]; cbn [fst thr_ok] in *.
+    - eapply IH; eauto.
+    - apply (IH (es0 ++ [e])). eapply runs_app; [exact Hr|]. econstructor; [exact Hok | exact Hs | constructor].
+    - apply (IH (es0 ++ [e])). eapply runs_app; [exact Hr|]. econstructor; [exact Hok | exact Hs | constructor]. }
+  apply (G _ _ _ R []). constructor.
+Qed.
+
+(** Every operation releases the lock FILE it took: along every implementation run in which
+    no Unlock call of request [t] itself is made to fail, when [t] has returned it holds no
+    lock file of any name (C09's [locks_released] through the coupling). *)
+Theorem impl_locks_released cs st ls s F t th :
+  iruns_ok (unlock_ok_for t) (iinit cs st) ls (s, F) ->
+  thread_at s t th -> final_pc (tpc th) = true ->
+  recd th = false /\ forall k i, FL.cs (F k) t <> FL.CHolding i.
+Proof.
+  intros R Ht Hf.
+  destruct (impl_refines_issuance_ok _ cs st ls s F R) as [es Hr].
+  destruct (locks_released cs st t es s th Hr Ht Hf) as [Hrec Hown]. split; [exact Hrec|].
+  destruct (impl_refines_issuance cs st ls s F (iruns_ok_iruns _ _ _ _ R)) as (_ & HC & HI).
+  intros k i Hi. apply (Hown k). rewrite HC.
+  destruct (HI k) as (HB & HM & _). apply (holder_some c (F k) t HB HM). eauto.
+Qed.
 End Compose.
